@@ -558,6 +558,9 @@ def negotiate_unrestricted(
     result_cx, result_roles = negotiate_as_acceptor(
         non_storage_contexts, ac_contexts, roles
     )
+    # Keep the role selection replies for the non-storage contexts
+    for reply in result_roles:
+        reply_roles[cast(UID, reply.sop_class_uid)] = reply
 
     # Accept all storage-like contexts
     for rcx in storage_contexts:
